@@ -245,6 +245,194 @@ theorem replicaStep_flags (cfg : Cfg) (s : St) (f : Fault) (hl : s.live = true) 
       exact ⟨h3.1.trans (h2.1.trans (hir.1.trans hl)), h3.2.1.trans (h2.2.1.trans (hir.2.1.trans hs)),
         h3.2.2.1.trans (h2.2.2.1.trans hir.2.2.1), h3.2.2.2.trans (h2.2.2.2.trans hir.2.2.2)⟩
 
+theorem ackGroup_parked (t : St) (a : Int) : (ackGroup t a).parked = t.parked := by
+  unfold ackGroup; split <;> rfl
+
+/-- with a live follower a replica call never parks the loop -/
+theorem replicaStep_parked (cfg : Cfg) (s : St) (f : Fault) (hl : s.live = true) (hp : s.parked = false) (hs : s.susp = false) :
+    (replicaStep cfg s f).1.parked = false ∧ (replicaStep cfg s f).1.susp = false ∧
+    (replicaStep cfg s f).1.stopped = s.stopped ∧ (replicaStep cfg s f).1.gone = s.gone := by
+  have hhs : (handshake cfg s f).1.parked = s.parked ∧ (handshake cfg s f).1.susp = s.susp ∧
+      (handshake cfg s f).1.stopped = s.stopped ∧ (handshake cfg s f).1.gone = s.gone := by
+    unfold handshake resetReplicaIndex followerReset
+    dsimp only
+    split
+    · exact ⟨rfl, rfl, rfl, rfl⟩
+    split
+    · exact ⟨rfl, rfl, rfl, rfl⟩
+    split
+    · exact ⟨rfl, rfl, rfl, rfl⟩
+    split
+    · split <;> exact ⟨rfl, rfl, rfl, rfl⟩
+    · have hag := ackGroup_flags
+      split
+      · split
+        · simp [(ackGroup_parked _ _), (hag _ _).2.1, (hag _ _).2.2.1, (hag _ _).2.2.2.1, resetAppendIndex]
+        · simp [(ackGroup_parked _ _), (hag _ _).2.1, (hag _ _).2.2.1, (hag _ _).2.2.2.1, resetAppendIndex]
+      · split
+        · simp [(ackGroup_parked _ _), (hag _ _).2.1, (hag _ _).2.2.1, (hag _ _).2.2.2.1]
+        · simp [(ackGroup_parked _ _), (hag _ _).2.1, (hag _ _).2.2.1, (hag _ _).2.2.2.1]
+  have hir : (isReady cfg s f).1.parked = s.parked ∧ (isReady cfg s f).1.susp = s.susp ∧
+      (isReady cfg s f).1.stopped = s.stopped ∧ (isReady cfg s f).1.gone = s.gone := by
+    unfold isReady
+    split
+    · exact ⟨rfl, rfl, rfl, rfl⟩
+    split
+    · rename_i x; rw [hl] at x; cases x
+    · exact hhs
+  have hcn : ∀ t : St, (connect t f).1.parked = t.parked ∧ (connect t f).1.susp = t.susp ∧
+      (connect t f).1.stopped = t.stopped ∧ (connect t f).1.gone = t.gone := by
+    intro t; unfold connect
+    split
+    · exact ⟨rfl, rfl, rfl, rfl⟩
+    split <;> exact ⟨rfl, rfl, rfl, rfl⟩
+  have hsp : ∀ t : St, (sendPhase cfg t f).1.parked = t.parked ∧ (sendPhase cfg t f).1.susp = t.susp ∧
+      (sendPhase cfg t f).1.stopped = t.stopped ∧ (sendPhase cfg t f).1.gone = t.gone := by
+    intro t
+    have hag := ackGroup_flags
+    have hrs : ∀ (u : St) (idx : Int) (m : Msg), (replicaSend cfg u idx m f).1.parked = u.parked ∧ (replicaSend cfg u idx m f).1.susp = u.susp ∧
+        (replicaSend cfg u idx m f).1.stopped = u.stopped ∧ (replicaSend cfg u idx m f).1.gone = u.gone := by
+      intro u idx m
+      unfold replicaSend replicaLog
+      dsimp only
+      repeat' split
+      all_goals (first | exact ⟨rfl, rfl, rfl, rfl⟩ | simp [(ackGroup_parked _ _), (hag _ _).2.1, (hag _ _).2.2.1, (hag _ _).2.2.2.1])
+    unfold sendPhase consume
+    dsimp only
+    split
+    · dsimp only
+      split
+      · exact ⟨rfl, rfl, rfl, rfl⟩
+      · split
+        · unfold ignoreMessage
+          split
+          · simp [(ackGroup_parked _ _), (hag _ _).2.1, (hag _ _).2.2.1, (hag _ _).2.2.2.1]
+          · exact ⟨rfl, rfl, rfl, rfl⟩
+        · exact hrs _ _ _
+    · dsimp only
+      split
+      · exact ⟨rfl, rfl, rfl, rfl⟩
+      · split
+        · unfold ignoreMessage
+          split
+          · simp [(ackGroup_parked _ _), (hag _ _).2.1, (hag _ _).2.2.1, (hag _ _).2.2.2.1]
+          · exact ⟨rfl, rfl, rfl, rfl⟩
+        · exact hrs _ _ _
+  unfold replicaStep
+  generalize isReady cfg s f = r at hir
+  obtain ⟨s1, ok⟩ := r
+  dsimp only at hir ⊢
+  cases ok
+  · simp only [Bool.false_eq_true, if_false]
+    exact ⟨hir.1.trans hp, hir.2.1.trans hs, hir.2.2.1, hir.2.2.2⟩
+  · simp only [if_true]
+    have h2 := hcn s1
+    generalize connect s1 f = r2 at h2
+    obtain ⟨s2, ok2⟩ := r2
+    dsimp only at h2 ⊢
+    cases ok2
+    · simp only [Bool.false_eq_true, if_false]
+      exact ⟨h2.1.trans (hir.1.trans hp), h2.2.1.trans (hir.2.1.trans hs), h2.2.2.1.trans hir.2.2.1, h2.2.2.2.trans hir.2.2.2⟩
+    · simp only [if_true]
+      have h3 := hsp s2
+      exact ⟨h3.1.trans (h2.1.trans (hir.1.trans hp)), h3.2.1.trans (h2.2.1.trans (hir.2.1.trans hs)),
+        h3.2.2.1.trans (h2.2.2.1.trans hir.2.2.1), h3.2.2.2.trans (h2.2.2.2.trans hir.2.2.2)⟩
+
+/-- a replica call changes `isSuspend` and "parked" only together, in IsReady's follower-offline branch -/
+theorem replicaStep_sp (cfg : Cfg) (s : St) (f : Fault) :
+    ((replicaStep cfg s f).1.parked = s.parked ∧ (replicaStep cfg s f).1.susp = s.susp) ∨
+    ((replicaStep cfg s f).1.parked = true ∧ (replicaStep cfg s f).1.susp = true) := by
+  have hhs : (handshake cfg s f).1.parked = s.parked ∧ (handshake cfg s f).1.susp = s.susp ∧
+      (handshake cfg s f).1.stopped = s.stopped ∧ (handshake cfg s f).1.gone = s.gone := by
+    unfold handshake resetReplicaIndex followerReset
+    dsimp only
+    split
+    · exact ⟨rfl, rfl, rfl, rfl⟩
+    split
+    · exact ⟨rfl, rfl, rfl, rfl⟩
+    split
+    · exact ⟨rfl, rfl, rfl, rfl⟩
+    split
+    · split <;> exact ⟨rfl, rfl, rfl, rfl⟩
+    · have hag := ackGroup_flags
+      split
+      · split
+        · simp [(ackGroup_parked _ _), (hag _ _).2.1, (hag _ _).2.2.1, (hag _ _).2.2.2.1, resetAppendIndex]
+        · simp [(ackGroup_parked _ _), (hag _ _).2.1, (hag _ _).2.2.1, (hag _ _).2.2.2.1, resetAppendIndex]
+      · split
+        · simp [(ackGroup_parked _ _), (hag _ _).2.1, (hag _ _).2.2.1, (hag _ _).2.2.2.1]
+        · simp [(ackGroup_parked _ _), (hag _ _).2.1, (hag _ _).2.2.1, (hag _ _).2.2.2.1]
+  have hcn : ∀ t : St, (connect t f).1.parked = t.parked ∧ (connect t f).1.susp = t.susp ∧
+      (connect t f).1.stopped = t.stopped ∧ (connect t f).1.gone = t.gone := by
+    intro t; unfold connect
+    split
+    · exact ⟨rfl, rfl, rfl, rfl⟩
+    split <;> exact ⟨rfl, rfl, rfl, rfl⟩
+  have hsp : ∀ t : St, (sendPhase cfg t f).1.parked = t.parked ∧ (sendPhase cfg t f).1.susp = t.susp ∧
+      (sendPhase cfg t f).1.stopped = t.stopped ∧ (sendPhase cfg t f).1.gone = t.gone := by
+    intro t
+    have hag := ackGroup_flags
+    have hrs : ∀ (u : St) (idx : Int) (m : Msg), (replicaSend cfg u idx m f).1.parked = u.parked ∧ (replicaSend cfg u idx m f).1.susp = u.susp ∧
+        (replicaSend cfg u idx m f).1.stopped = u.stopped ∧ (replicaSend cfg u idx m f).1.gone = u.gone := by
+      intro u idx m
+      unfold replicaSend replicaLog
+      dsimp only
+      repeat' split
+      all_goals (first | exact ⟨rfl, rfl, rfl, rfl⟩ | simp [(ackGroup_parked _ _), (hag _ _).2.1, (hag _ _).2.2.1, (hag _ _).2.2.2.1])
+    unfold sendPhase consume
+    dsimp only
+    split
+    · dsimp only
+      split
+      · exact ⟨rfl, rfl, rfl, rfl⟩
+      · split
+        · unfold ignoreMessage
+          split
+          · simp [(ackGroup_parked _ _), (hag _ _).2.1, (hag _ _).2.2.1, (hag _ _).2.2.2.1]
+          · exact ⟨rfl, rfl, rfl, rfl⟩
+        · exact hrs _ _ _
+    · dsimp only
+      split
+      · exact ⟨rfl, rfl, rfl, rfl⟩
+      · split
+        · unfold ignoreMessage
+          split
+          · simp [(ackGroup_parked _ _), (hag _ _).2.1, (hag _ _).2.2.1, (hag _ _).2.2.2.1]
+          · exact ⟨rfl, rfl, rfl, rfl⟩
+        · exact hrs _ _ _
+  have hir : ((isReady cfg s f).1.parked = s.parked ∧ (isReady cfg s f).1.susp = s.susp) ∨
+      ((isReady cfg s f).1.parked = true ∧ (isReady cfg s f).1.susp = true ∧ (isReady cfg s f).2 = false) := by
+    unfold isReady
+    split
+    · exact Or.inl ⟨rfl, rfl⟩
+    split
+    · exact Or.inr ⟨rfl, rfl, rfl⟩
+    · exact Or.inl ⟨hhs.1, hhs.2.1⟩
+  unfold replicaStep
+  generalize isReady cfg s f = r at hir
+  obtain ⟨s1, ok⟩ := r
+  dsimp only at hir ⊢
+  cases ok
+  · simp only [Bool.false_eq_true, if_false]
+    rcases hir with x | x
+    · exact Or.inl x
+    · exact Or.inr ⟨x.1, x.2.1⟩
+  · simp only [if_true]
+    have hir' : s1.parked = s.parked ∧ s1.susp = s.susp := by
+      rcases hir with x | x
+      · exact x
+      · cases x.2.2
+    have h2 := hcn s1
+    generalize connect s1 f = r2 at h2
+    obtain ⟨s2, ok2⟩ := r2
+    dsimp only at h2 ⊢
+    cases ok2
+    · simp only [Bool.false_eq_true, if_false]
+      exact Or.inl ⟨h2.1.trans hir'.1, h2.2.1.trans hir'.2⟩
+    · simp only [if_true]
+      have h3 := hsp s2
+      exact Or.inl ⟨h3.1.trans (h2.1.trans hir'.1), h3.2.1.trans (h2.2.1.trans hir'.2)⟩
+
 /-- a ready channel whose stream is dead and that has something to send notices it: the call ends in `failure` -/
 theorem replicaStep_broken_fails (cfg : Cfg) (s : St) (f : Fault) (h : InvA s) (hst : s.stopped = false)
     (hr : s.chan = .ready) (hb : s.stream = .broken) (hd : s.cons < s.L.app) :
@@ -568,5 +756,152 @@ theorem replicaStep_mismatch_fails (cfg : Cfg) (s : St) (f : Fault) (hm : cfg.mf
       intro x; cases x
     · simp only [if_true]
       exact hsp s2
+
+/-! ### the wake-up is never lost (plain blocking send in `handleNodeStateChangeEvent`) -/
+
+/-- a loop that is (about to be) blocked in `<-r.suspend` still has its suspend flag set: the next
+online notification will find `isSuspend = true`, win the CAS and hand the loop its wake-up -/
+structure WK (s : St) : Prop where
+  a : s.parked = true → s.susp = true
+  b : s.parked2 = true → s.susp2 = true
+
+theorem wk_swap {s : St} (h : WK s) : WK s.swap := ⟨h.b, h.a⟩
+
+theorem wk_peerEv (cfg : Cfg) (hw : cfg.wake = true) (s : St) (e : Ev) (hf : Full s) (h : WK s) :
+    WK (peerEv cfg s e).1 := by
+  have hp := peerEv_spec cfg s e hf.a hf.bndA hf.stA hf.ubA
+  have hs2 := frameSame hp.frame
+  refine ⟨?_, by rw [hs2.parked2, hs2.susp2]; exact h.b⟩
+  have hstep : ∀ (t : St) (f : Fault), (t.parked = true → t.susp = true) →
+      ((replicaStep cfg t f).1.parked = true → (replicaStep cfg t f).1.susp = true) := by
+    intro t f ht
+    rcases replicaStep_sp cfg t f with x | x
+    · rw [x.1, x.2]; exact ht
+    · intro _; exact x.2
+  have honl : ∀ f : Fault, (onlineEv cfg s f).1.parked = true → (onlineEv cfg s f).1.susp = true := by
+    intro f
+    unfold onlineEv
+    dsimp only
+    split
+    · exact h.a
+    · split
+      · exact hstep _ f (fun x => by cases x)
+      · exact h.a
+  cases e with
+  | step w f =>
+    simp only [peerEv]
+    split
+    · exact h.a
+    · split
+      · exact h.a
+      · exact hstep s f h.a
+  | frestart w => simp only [peerEv]; exact h.a
+  | flose w => simp only [peerEv]; exact h.a
+  | offline w => simp only [peerEv]; exact h.a
+  | online w f => simp only [peerEv]; exact honl f
+  | steponl w f =>
+    simp only [peerEv, hw, if_true]
+    split
+    · rename_i hc
+      exact hstep _ f (fun x => by rw [hc.2.1] at x; cases x)
+    · exact honl f
+  | join w =>
+    simp only [peerEv]
+    split
+    · exact h.a
+    · split <;> (intro x; cases x)
+  | append m => simp only [peerEv]; exact h.a
+  | lsnap => simp only [peerEv]; exact h.a
+  | lrestore k => simp only [peerEv]; exact h.a
+  | lrestart => simp only [peerEv]; exact h.a
+  | gc => simp only [peerEv]; exact h.a
+  | expire => simp only [peerEv]; exact h.a
+
+theorem syncGC_flags (s : St) : (syncGC s).parked = s.parked ∧ (syncGC s).susp = s.susp ∧
+    (syncGC s).parked2 = s.parked2 ∧ (syncGC s).susp2 = s.susp2 := by
+  have key : ∀ a : Int, (if 0 ≤ a then { s with L := s.L.setAck a } else s).parked = s.parked ∧
+      (if 0 ≤ a then { s with L := s.L.setAck a } else s).susp = s.susp ∧
+      (if 0 ≤ a then { s with L := s.L.setAck a } else s).parked2 = s.parked2 ∧
+      (if 0 ≤ a then { s with L := s.L.setAck a } else s).susp2 = s.susp2 := by
+    intro a; split <;> exact ⟨rfl, rfl, rfl, rfl⟩
+  unfold syncGC
+  split
+  · exact ⟨rfl, rfl, rfl, rfl⟩
+  · exact key _
+
+theorem expire_flags (s : St) : (expire s).1.parked = s.parked ∧ (expire s).1.susp = s.susp ∧
+    (expire s).1.parked2 = s.parked2 ∧ (expire s).1.susp2 = s.susp2 := by
+  have hg := syncGC_flags s
+  unfold expire
+  generalize syncGC s = t at hg
+  dsimp only
+  have h1 : ∀ (c : Prop) [Decidable c] (u : St), (if c then stopA u else u).parked = u.parked ∧ (if c then stopA u else u).susp = u.susp ∧
+      (if c then stopA u else u).parked2 = u.parked2 ∧ (if c then stopA u else u).susp2 = u.susp2 := by
+    intro c _ u; split <;> exact ⟨rfl, rfl, rfl, rfl⟩
+  have h2 : ∀ (c : Prop) [Decidable c] (u : St), (if c then stopB u else u).parked = u.parked ∧ (if c then stopB u else u).susp = u.susp ∧
+      (if c then stopB u else u).parked2 = u.parked2 ∧ (if c then stopB u else u).susp2 = u.susp2 := by
+    intro c _ u; split <;> exact ⟨rfl, rfl, rfl, rfl⟩
+  have a1 := h1 (t.stopped = false ∧ t.L.app ≤ t.gack) t
+  generalize (if t.stopped = false ∧ t.L.app ≤ t.gack then stopA t else t) = u at a1
+  have a2 := h2 (t.stopped2 = false ∧ t.L.app ≤ t.gack2) u
+  generalize (if t.stopped2 = false ∧ t.L.app ≤ t.gack2 then stopB u else u) = v at a2
+  split
+  · exact ⟨a2.1.trans (a1.1.trans hg.1), a2.2.1.trans (a1.2.1.trans hg.2.1), a2.2.2.1.trans (a1.2.2.1.trans hg.2.2.1),
+      a2.2.2.2.trans (a1.2.2.2.trans hg.2.2.2)⟩
+  · exact ⟨a2.1.trans (a1.1.trans hg.1), a2.2.1.trans (a1.2.1.trans hg.2.1), a2.2.2.1.trans (a1.2.2.1.trans hg.2.2.1),
+      a2.2.2.2.trans (a1.2.2.2.trans hg.2.2.2)⟩
+
+theorem wk_next (cfg : Cfg) (hw : cfg.wake = true) (s : St) (e : Ev) (hf : Full s) (h : WK s) :
+    WK (next cfg s e).1 := by
+  unfold next
+  split
+  · exact h
+  · cases e with
+    | step w f => cases w <;> simp only [Ev.who]
+                  · exact wk_peerEv cfg hw s _ hf h
+                  · exact wk_swap (wk_peerEv cfg hw s.swap _ (full_swap hf) (wk_swap h))
+    | frestart w => cases w <;> simp only [Ev.who]
+                    · exact wk_peerEv cfg hw s _ hf h
+                    · exact wk_swap (wk_peerEv cfg hw s.swap _ (full_swap hf) (wk_swap h))
+    | flose w => cases w <;> simp only [Ev.who]
+                 · exact wk_peerEv cfg hw s _ hf h
+                 · exact wk_swap (wk_peerEv cfg hw s.swap _ (full_swap hf) (wk_swap h))
+    | offline w => cases w <;> simp only [Ev.who]
+                   · exact wk_peerEv cfg hw s _ hf h
+                   · exact wk_swap (wk_peerEv cfg hw s.swap _ (full_swap hf) (wk_swap h))
+    | online w f => cases w <;> simp only [Ev.who]
+                    · exact wk_peerEv cfg hw s _ hf h
+                    · exact wk_swap (wk_peerEv cfg hw s.swap _ (full_swap hf) (wk_swap h))
+    | steponl w f => cases w <;> simp only [Ev.who]
+                     · exact wk_peerEv cfg hw s _ hf h
+                     · exact wk_swap (wk_peerEv cfg hw s.swap _ (full_swap hf) (wk_swap h))
+    | join w => cases w <;> simp only [Ev.who]
+                · exact wk_peerEv cfg hw s _ hf h
+                · exact wk_swap (wk_peerEv cfg hw s.swap _ (full_swap hf) (wk_swap h))
+    | append m => simp only [Ev.who]; split <;> exact ⟨h.a, h.b⟩
+    | lsnap => simp only [Ev.who]; exact ⟨h.a, h.b⟩
+    | lrestore k =>
+      simp only [Ev.who]
+      cases s.imgs.drop k with
+      | nil => exact h
+      | cons im rest => exact ⟨(fun x => by cases x), (fun x => by cases x)⟩
+    | lrestart => simp only [Ev.who]; exact ⟨(fun x => by cases x), (fun x => by cases x)⟩
+    | gc =>
+      simp only [Ev.who]
+      have hg := syncGC_flags s
+      exact ⟨by rw [hg.1, hg.2.1]; exact h.a, by rw [hg.2.2.1, hg.2.2.2]; exact h.b⟩
+    | expire =>
+      simp only [Ev.who]
+      have hg := expire_flags s
+      exact ⟨by rw [hg.1, hg.2.1]; exact h.a, by rw [hg.2.2.1, hg.2.2.2]; exact h.b⟩
+
+theorem wk_foldl (cfg : Cfg) (hw : cfg.wake = true) (evs : List Ev) : ∀ s, Full s → WK s →
+    WK (evs.foldl (fun s e => (next cfg s e).1) s) := by
+  induction evs with
+  | nil => intro s _ h; exact h
+  | cons e t ih => intro s hf h; exact ih _ (next_spec cfg s e hf).full (wk_next cfg hw s e hf h)
+
+theorem wk_run (cfg : Cfg) (hw : cfg.wake = true) (evs : List Ev) : WK (run cfg evs) :=
+  wk_foldl cfg hw evs _ full_init ⟨(fun x => by cases x), (fun x => by cases x)⟩
 
 end LinVerif.Replication
